@@ -242,12 +242,16 @@ func (g *worldGen) schema(doc string, toks []string, depth int, rank int) map[st
 			s["additionalProperties"] = child("additionalProperties")
 		case 9:
 			m := map[string]interface{}{}
-			for _, n := range []string{"^a", "b$"}[:1+g.r.Intn(2)] {
+			// patterns; some spell the name of a property of the same schema (the two maps are independent name spaces)
+			pats := []string{"^a", "b$", "p", "q"}
+			g.r.Shuffle(len(pats), func(i, j int) { pats[i], pats[j] = pats[j], pats[i] })
+			for _, n := range pats[:1+g.r.Intn(2)] {
 				m[n] = child("patternProperties", n)
 			}
 			s["patternProperties"] = m
 		case 10:
-			s["dependencies"] = map[string]interface{}{"k": child("dependencies", "k"), "l": []interface{}{"m"}}
+			dk := []string{"k", "p"}[g.r.Intn(2)] // a dependency is often named after a property
+			s["dependencies"] = map[string]interface{}{dk: child("dependencies", dk), "l": []interface{}{"m"}}
 		default:
 			if g.r.Intn(2) == 0 {
 				s["additionalItems"] = child("additionalItems")
